@@ -13,6 +13,9 @@ var S7 = []uint64{0, 1, BW / 10, BW/2 - 1, BW / 2, BW - 2, BW - 1}
 var S9 = []uint64{0, 1, BW / 10, BW/2 - 1, BW / 2, BW - 2, BW - 1, BW/2 + 1, BW/10 - 1}
 var S12 = []uint64{0, 1, BW / 10, BW/2 - 1, BW / 2, BW - 2, BW - 1, BW/2 + 1, BW/10 - 1, 2, BW / 3, BW/3 + 1}
 
+// Sbin: words at the binary boundaries of the 64-bit registers holding decimal words (2·10^19 > 2^64, sign bit, half words, √B).
+var Sbin = []uint64{1<<63 - 1, 1 << 63, 1<<63 + 1, (1<<64 - 1) - BW, (1<<64 - 1) - BW + 1, (1<<64 - 1) - BW + 2, BW - 1, 1<<32 - 1, 1 << 32, 3162277660, 3162277661}
+
 var M6 = []uint8{0, 1, 2, 3, 4, 5}
 
 var Eword = []int64{0, 1, 18, 19, 20, 37, 38, 39, 57}
